@@ -125,8 +125,9 @@ def run(ctx):
     rng = ctx.rng
     n = (450 if ctx.quick else 3000) * (3 if ctx.search else 1)
     for _ in range(n):
-        if rng.random() < 0.3:
-            a, o, t = valid_configurator(rng, ctx.quick)
+        if rng.random() < 0.35:
+            # configurators; a third of them rich in choices nested below choices (defaults below defaults)
+            a, o, t = valid_configurator(rng, ctx.quick, nest_p=0.3 if rng.random() < 0.65 else 0.9)
         else:
             a, o, t = gen_valid(rng, ctx.quick, classes=[c for c in CLASSES if not c.startswith("cc")], wide_p=0.02)
         do_case(ctx, {"ast": a})
